@@ -167,7 +167,8 @@ def check_distance_matcher(ctx, rules=("PATHCOUNT", "TIME", "INDEX", "GREEDY", "
         a0 = fv.expand(c.args[0], c, stop=(D,), allow_mutated=True) if c.args else None
         glob = isinstance(a0, ast.Call) and (((fv.callee(a0) or "").endswith("numpy.argmin") and len(a0.args) == 1 and U(a0.args[0]) == D and not a0.keywords)
                                              or (isinstance(a0.func, ast.Attribute) and a0.func.attr == "argmin" and U(a0.func.value) == D and not a0.args and not a0.keywords))
-        shp = len(c.args) > 1 and U(c.args[1]) == f"{D}.shape"
+        # (the shape of the matrix does not change while rows and columns are overwritten: a hoisted `shape = D.shape` is the same value)
+        shp = len(c.args) > 1 and U(fv.expand(c.args[1], c, stop=(D,), allow_mutated=True)) == f"{D}.shape"
         s_um = si.statement(c)
         if isinstance(s_um, ast.Assign) and isinstance(s_um.targets[0], ast.Tuple) and len(s_um.targets[0].elts) == 2:
             pair = tuple(e.id for e in s_um.targets[0].elts)
